@@ -236,6 +236,7 @@ type bufWrite struct {
 	I     ssa.Instruction
 	Text  string   // constant text or Sprintf format
 	Args  []string // Sprintf args
+	Types []string // static types of the Sprintf args
 	Byte  string   // WriteByte operand
 	Const bool
 }
@@ -259,14 +260,32 @@ func marshalWrites(c *Ctx, m *ssa.Function) []bufWrite {
 				w := bufWrite{I: i, Text: f}
 				for _, e := range variadicElems(sp.Call.Args[1]) {
 					w.Args = append(w.Args, c.Expr(e))
+					w.Types = append(w.Types, typeName(unwrapIface(e).Type()))
 				}
 				out = append(out, w)
 				return
 			}
 			out = append(out, bufWrite{I: i, Text: "?" + c.Expr(a)})
+		case "fmt.Fprintf":
+			// fmt.Fprintf(&buf, format, args...) is the same write as buf.WriteString(fmt.Sprintf(format, args...))
+			if c.Expr(call.Call.Args[0]) != "&buf" {
+				out = append(out, bufWrite{I: i, Text: "?" + shortInstr(i)})
+				return
+			}
+			f, ok := constString(call.Call.Args[1])
+			if !ok {
+				out = append(out, bufWrite{I: i, Text: "?" + shortInstr(i)})
+				return
+			}
+			w := bufWrite{I: i, Text: f}
+			for _, e := range variadicElems(call.Call.Args[2]) {
+				w.Args = append(w.Args, c.Expr(e))
+				w.Types = append(w.Types, typeName(unwrapIface(e).Type()))
+			}
+			out = append(out, w)
 		case "(*bytes.Buffer).WriteByte":
 			out = append(out, bufWrite{I: i, Byte: c.Expr(call.Call.Args[1])})
-		case "(*bytes.Buffer).Write", "(*bytes.Buffer).WriteRune", "fmt.Fprintf", "fmt.Fprint":
+		case "(*bytes.Buffer).Write", "(*bytes.Buffer).WriteRune", "fmt.Fprint", "fmt.Fprintln":
 			out = append(out, bufWrite{I: i, Text: "?" + shortInstr(i)})
 		}
 	})
@@ -375,6 +394,7 @@ func c03r4(r *R) {
 	dw := find(func(w bufWrite) bool { return w.Text == "%d:%d" && len(w.Args) == 2 && strings.Contains(w.Args[0], "Priorities") })
 	if oP.Check(len(dw) == 1, "expected one dependency:weight write, found %d", len(dw)) {
 		oP.AtI(dw[0].I).Check(dw[0].Args[0] == pIdx+".StreamDep" && dw[0].Args[1] == "(1 + "+pIdx+".Weight)", "dependency:weight is rendered from (%s, %s), want (p.StreamDep, int(p.Weight)+1)", dw[0].Args[0], dw[0].Args[1])
+		oP.Check(len(dw[0].Types) == 2 && dw[0].Types[1] == "int", "weight+1 is computed in type %v: in uint8 arithmetic wire weight 255 (meaning 256) wraps to 0", dw[0].Types)
 	}
 	ex1 := find(func(w bufWrite) bool { return w.Const && w.Text == "1:" })
 	ex0 := find(func(w bufWrite) bool { return w.Const && w.Text == "0:" })
